@@ -108,11 +108,17 @@ var (
 	reqPorts = []string{"", "80", "8080", "443"}
 	wildFill = []string{"x", "b", "c.b", "x.y", "", "xb"}
 
-	paths    = []string{"/", "/a", "/a/", "/a/b", "/ab", "/a/b/c", "/b", "/b/a", "/abc", "/c/d"}
+	paths    = []string{"/", "/a", "/a/", "/a/b", "/ab", "/a/b/c", "/b", "/b/a", "/abc", "/c/d", "/x/a/b", "/v1/a", "/x/v22/a"}
 	prefixes = []string{"/", "/a", "/a/", "/a/b", "/ab", "/b", "/c"}
 	suffixes = []string{"", "x", "/x", "/"}
-	// every regular expression is anchored (or ".*"): substring-search and full-match semantics coincide
+	// path (and variable) regular expressions follow Go's regexp search semantics like the header ones
+	// (RegexRouteRuleImpl.Match / VariableRouteRuleImpl call MatchString): an unanchored pattern matches every
+	// path that contains a match, wherever it begins
 	pathRegex = map[string][]string{
+		"/a/b":           {"/a/b", "/x/a/b", "/a/b/c"},
+		"/v[0-9]+/a":     {"/v1/a", "/x/v22/a"},
+		"b/[a-c]":        {"/b/a", "/a/b/c"},
+		"/b$":            {"/b", "/a/b", "/x/a/b"},
 		"^/a(/.*)?$":     {"/a", "/a/b", "/a/"},
 		"^/[a-c]+$":      {"/ab", "/b", "/abc", "/a"},
 		"^/a/b.*$":       {"/a/b", "/a/b/c"},
@@ -537,17 +543,6 @@ func modelVHost(c *cfgSpec, hostHeader string) (idx, class, classesMatching int)
 	return best, bestClass, len(seen)
 }
 
-var reCache sync.Map
-
-func fullMatch(pat, s string) bool {
-	v, ok := reCache.Load(pat)
-	if !ok {
-		v = regexp.MustCompile("^(?:" + pat + ")$")
-		reCache.Store(pat, v)
-	}
-	return v.(*regexp.Regexp).MatchString(s)
-}
-
 var reSearchCache sync.Map
 
 func searchMatch(pat, s string) bool {
@@ -615,7 +610,7 @@ func modelRouteMatches(r *routeSpec, q *reqSpec, qk quirks) bool {
 		case "prefix":
 			return strings.HasPrefix(q.Path, r.Arg)
 		default:
-			return fullMatch(r.Arg, q.Path)
+			return searchMatch(r.Arg, q.Path)
 		}
 	case "rpc":
 		if len(r.Headers) == 1 && r.Headers[0].Name == "service" && !r.Headers[0].Regex && r.Headers[0].Value == ".*" {
@@ -636,7 +631,7 @@ func modelRouteMatches(r *routeSpec, q *reqSpec, qk quirks) bool {
 			actual := q.variable(v.Name)
 			holds := false
 			if v.Regex != "" {
-				holds = fullMatch(v.Regex, actual)
+				holds = searchMatch(v.Regex, actual)
 			} else {
 				holds = actual == v.Value
 			}
